@@ -64,6 +64,8 @@ func runIdxStream(seed int64, n int, out, backendSpec string) *RunReport {
 		for i := 0; i < ne; i++ {
 			entries = append(entries, idxEntry{pickOf(g, pool), fmt.Sprintf("%08x-aaaa-4bbb-8ccc-%012x", i, g.Intn(1<<20))})
 		}
+		// every index also holds two nil entries (documents lacking the field): the nil-only range is never vacuous
+		entries = append(entries, idxEntry{nil, fmt.Sprintf("%08x-aaaa-4bbb-8ccc-%012x", 900, round)}, idxEntry{nil, fmt.Sprintf("%08x-aaaa-4bbb-8ccc-%012x", 901, round)})
 		entTerm := make([]string, len(entries))
 		allDom := true
 		for i, e := range entries {
@@ -82,7 +84,9 @@ func runIdxStream(seed int64, n int, out, backendSpec string) *RunReport {
 				func() {
 					tx, _ := inner.Begin(true)
 					defer tx.Rollback()
-					idx := index.CreateIndex("c", "f", index.SingleField, tx).(index.RangeIndex)
+					// the collection and field names only shape the key prefix (and the capacity of the buffers it is built in)
+					cname, fname := "c"+strings.Repeat("x", round%9), "f"+strings.Repeat("y", (round/2)%7)
+					idx := index.CreateIndex(cname, fname, index.SingleField, tx).(index.RangeIndex)
 					for _, e := range entries {
 						if err := idx.Add(e.id, e.v, -1); err != nil {
 							f.failf("Add(%s): %v", gValue(e.v), err)
@@ -96,7 +100,7 @@ func runIdxStream(seed int64, n int, out, backendSpec string) *RunReport {
 						}
 						scanTx, _ = inner.Begin(false)
 						defer scanTx.Rollback()
-						idx = index.CreateIndex("c", "f", index.SingleField, scanTx).(index.RangeIndex)
+						idx = index.CreateIndex(cname, fname, index.SingleField, scanTx).(index.RangeIndex)
 					}
 					// systematic part: every stored value as an excluded / included bound on either side, both directions
 					type fixedRange struct {
@@ -115,6 +119,7 @@ func runIdxStream(seed int64, n int, out, backendSpec string) *RunReport {
 								fixedRange{e.v, e.v, true, true, rev}, fixedRange{e.v, nil, true, false, rev}, fixedRange{nil, e.v, false, true, rev})
 						}
 					}
+					fixed = append(fixed, fixedRange{nil, nil, true, true, false}, fixedRange{nil, nil, true, true, true})
 					nranges := 40 + len(fixed)
 					for k := 0; k < nranges; k++ {
 						rs, re := pickOf(g, pool), pickOf(g, pool)
